@@ -36,7 +36,11 @@ EXPLANATION = (
     "is located with that circuit's own node key: in CircuitTemplate.get_variable_positions whatever is stored per node (inside a loop / "
     "comprehension over the nodes found by get_nodes, or over keys built from them one by one) into the two returned maps - position "
     "and backend variable - depends on the loop's node through every definition that reaches it (a value bound before the loop, or only "
-    "on some iterations, is the value of another node unless all nodes were merged into one backend variable).  NOT decided: everything "
+    "on some iterations, is the value of another node unless all nodes were merged into one backend variable).  R8 the object a per-node override is written into "
+    "shares nothing on the write path: in CircuitTemplate.update_var (private helpers spliced in) every call whose callee mutates a "
+    "container inside its receiver (effect summary, e.g. self.operators[*]) has a receiver that is a deep copy, or an object whose "
+    "constructor - followed through the deriving method's `return self.__class__(...)` and super().__init__ - stores fresh "
+    "containers at every written path; a shared / shallow-copied / derived-but-aliasing template is a violation.  NOT decided: everything "
     "behavioural - wildcard expansion (C06), that overrides reach their targets (C07), vectorisation of the combined circuit (C04), "
     "the numerical equality itself."
 )
@@ -2494,8 +2498,10 @@ def r8_override_written_into_unshared_copy(ctx, rid):
     deepcopy keeps the sharing), so the object the value is written into must share no container on the callee's write path with the
     template other nodes still use: a deep copy, or a derived object whose constructor stores fresh containers there."""
     from engine.effects import analyse, fmt_origin, DEEP_COPIERS
+    from engine.inline import inlined
     eff = ctx.effects
-    f = ctx.repo.get_func(CIRC, "CircuitTemplate.update_var")
+    f0 = ctx.repo.get_func(CIRC, "CircuitTemplate.update_var")
+    f = inlined(ctx, f0)                  # the per-node branch may live in a private helper of update_var
     an = analyse(eff, f, None)
     rd = ctx.rd(f)
     n_sites = 0
@@ -2522,12 +2528,12 @@ def r8_override_written_into_unshared_copy(ctx, rid):
         if not paths or not any(len(p) >= 2 for p in paths):
             continue                                      # the callee only re-binds attributes of its receiver
         n_sites += 1
-        label = f"per-node override is written into an unshared copy [{norm(call, 80)}]"
-        facts = {"write_path": ["self" + "".join(p) for p in paths], "callee": sorted(t.qualname for t in targets)}
+        label = f"per-node override through {', '.join(sorted(t.qualname for t in targets))} is written into an unshared copy"
+        facts = {"write_path": ["self" + "".join(p) for p in paths], "callee": sorted(t.qualname for t in targets), "call": norm(call)}
         orig = an.origins(recv)
         shared = [o for o in orig if o[0] in ("P", "G", "C")]
         if shared:
-            ctx.violation(rid, f, call, f"`{norm(call)}` writes through {facts['write_path']} of an object that is "
+            ctx.violation(rid, f0, call, f"`{norm(call)}` writes through {facts['write_path']} of an object that is "
                           f"{sorted(fmt_origin(o) for o in shared)} - {'a shallow copy of ' if all(o[0] == 'C' for o in shared) else ''}a template "
                           f"other nodes still use: the override of one node reaches its siblings (and, in a sweep, the rows that share the template)",
                           facts, label=label)
@@ -2555,11 +2561,11 @@ def r8_override_written_into_unshared_copy(ctx, rid):
         facts["made_by"] = norm(e0)
         if bad:
             why = "; ".join(sorted({v[1] for v in bad}))
-            ctx.violation(rid, f, call, f"`{norm(call)}` writes through {facts['write_path']} of the object made by `{norm(e0)}`, which is a new "
+            ctx.violation(rid, f0, call, f"`{norm(call)}` writes through {facts['write_path']} of the object made by `{norm(e0)}`, which is a new "
                           f"object but not a private one: {why}.  The value written for one node lands in the template its sibling nodes (and the "
                           f"other rows of a sweep that share it) still use", facts, label=label)
         else:
-            ctx.ok(rid, f, call, "the template that receives the node's value shares no container on the write path with the template it was "
+            ctx.ok(rid, f0, call, "the template that receives the node's value shares no container on the write path with the template it was "
                                  "made from (" + "; ".join(sorted({v[1] for v in verdicts})) + ")", facts, label=label)
     ctx.require(n_sites >= 1, f"{rid}: CircuitTemplate.update_var no longer calls a method that writes into a node template (anchor vanished)")
 
